@@ -25,4 +25,8 @@ def units(tier):
 
 
 def runner_tasks(tier):
-    return []
+    return [{"module": "c02", "task": "sample", "kind": "bounded", "clause": "all clauses, in floats"},
+            {"module": "c02", "task": "init_kinds", "kind": "bounded", "clause": "initializer kinds of formula()"}]
+
+
+REPLAY = {"module": "c02", "task": "replay"}
